@@ -636,7 +636,8 @@ func mainCheck(args []string) int {
 	assume := append([]string{}, suite.Assumes...)
 	assume = append(assume, "integers are mathematical (overflow only checked in functions marked `check overflow`); float64 is (NaN flag, real value) without rounding or infinities",
 		"time.Time is an integer number of nanoseconds on one linear timeline (zero time = 0); monotonic readings are not modelled",
-		"append never aliases its result with the argument's backing array")
+		"append never aliases its result with the argument's backing array",
+		"each function is verified as a sequential program: other goroutines and requests are modelled only where a contract says so (monitor rule at lock acquisitions: guarded fields havoced, invariant re-assumed; store-interface calls: abstract queue content may have changed); schedules inside a lock-free stretch of a function are not explored")
 	for _, k := range sortedKeys(assumptions) {
 		assume = append(assume, k)
 	}
